@@ -118,3 +118,50 @@ Theorem C17_established_reachable :
     s_state s = Established /\ inv s g.
 Proof. exact established_reachable. Qed.
 Print Assumptions C17_established_reachable.
+
+(* --- the rest of the public API (closure send/recv, connect with explicit address families) --- *)
+
+(* The state predicates are the functions of the state the documentation / RFC 9293 name. *)
+Theorem C17_predicates : forall s,
+  (tcp_is_open s = true <-> s_state s <> Closed /\ s_state s <> TimeWait) /\
+  (tcp_is_active s = true <-> s_state s <> Closed /\ s_state s <> TimeWait /\ s_state s <> Listen) /\
+  (tcp_is_listening s = true <-> s_state s = Listen) /\
+  (tcp_may_send s = true <-> s_state s = Established \/ s_state s = CloseWait) /\
+  (tcp_can_recv s = true <-> rb_len (s_rx_buffer s) <> 0) /\
+  (tcp_may_recv s = true <->
+     s_state s = Established \/ s_state s = FinWait1 \/ s_state s = FinWait2 \/ rb_len (s_rx_buffer s) <> 0) /\
+  (tcp_can_send s = true <->
+     (s_state s = Established \/ s_state s = CloseWait) /\ rb_len (s_tx_buffer s) <> rb_cap (s_tx_buffer s)).
+Proof. exact predicates_spec. Qed.
+Print Assumptions C17_predicates.
+
+(* A call that fails (listen, connect, send, recv, ... returning an error) changes nothing at all. *)
+Theorem C17_failed_call_unchanged : forall cx s ev s' e tags,
+  tcp_step_x cx s ev = Ok (s', XOut (OErr e), tags) -> s' = s.
+Proof. exact failed_call_unchanged. Qed.
+Print Assumptions C17_failed_call_unchanged.
+
+(* connect returns InvalidState exactly on an open socket, Unaddressable exactly for remote port 0,
+   unspecified remote, local port 0, unspecified local address or an address-family mismatch, and
+   otherwise succeeds into SYN-SENT. *)
+Theorem C17_connect_results : forall cx s v6 ra rp local,
+  match tcp_connect_af cx s v6 ra rp local with
+  | Err 1 => tcp_is_open s = true
+  | Err _ => tcp_is_open s = false /\
+             (rp = 0 \/ ra = 0 \/ le_port local = 0 \/ le_addr local = Some 0 \/
+              (v6 = true /\ le_addr local <> None))
+  | Ok s' => tcp_is_open s = false /\ rp <> 0 /\ ra <> 0 /\ le_port local <> 0 /\
+             tcp_connect cx s ra rp local = Ok s' /\ s_state s' = SynSent
+  | Panic => False
+  end.
+Proof. exact connect_af_spec. Qed.
+Print Assumptions C17_connect_results.
+
+(* C17_step_allowed extended to the closure API send(f)/recv(f) (never a state change) and to
+   connect with explicit address families. *)
+Theorem C17_step_allowed_all_calls : forall cx s g ev s' out tags,
+  inv s g -> wf_ctx cx -> wf_event_x ev ->
+  tcp_step_x cx s ev = Ok (s', out, tags) ->
+  allowed_x s g cx ev (s_state s') /\ inv s' (ghost_step_x cx s g ev s' out).
+Proof. exact step_x_ok. Qed.
+Print Assumptions C17_step_allowed_all_calls.
